@@ -27,7 +27,11 @@ RULE = ("all sequences of length d over 59 operations {sized_iter_to_heap_list o
         "multi-byte and NUL-containing strings, copy_pstr_within, copy_slice_to_end, append(0..3 cells), "
         "reserve+fill(0..3), truncate} x a free-space level in cells chosen before every operation "
         "(0..8 for d<=2; {0,1,2,8} for d=3) x growth mode {doubling, one-cell}. Non-trivial: the operation writes at "
-        "least as many bytes as were free (exact fit or growth).")
+        "least as many bytes as were free (exact fit or growth). Machine families (pworker under the canary allocator, "
+        "one-cell growth and exact reservations: every Heap::reserve gives back the free cells beyond the reservation): "
+        "12 string operations x strings of 0..25 bytes x 3 kinds x 8 heap paddings, and 22 general workloads (lists, copying, "
+        "findall/bagof/setof, assert, text conversion, bignums, the reader and writer, sorting, attributed variables, univ, "
+        "format_//2, assoc, error terms, blackboard, partial strings, DCGs), each compared with its run under ordinary growth.")
 LEVEL_TEXT = ("every operation sequence up to the depth bound is executed on the real heap code at every free-space "
               "level; an out-of-bounds write of up to 256 bytes past either end of any allocation is caught by canaries")
 ASSUMPTIONS = ["writes that land more than 256 bytes outside a block are not caught by the canaries (they would usually crash the explorer, which is reported as a machinery failure, not as a pass)",
@@ -52,6 +56,7 @@ def shards(tier):
     sh.sort(key=lambda s: -s[0])
     for pad in range(8):
         sh.append(["machine", pad])
+    sh.append(["machine", "wl"])
     return sh
 
 
@@ -78,6 +83,91 @@ MACHINE_OPS = [
 MACHINE_HELPER = ":- dynamic(c33/1).\nmsort33(L, L).\n:- use_module(library(lists)).\n:- use_module(library(iso_ext)).\n"
 
 
+# general workloads (lists, copying, findall/bagof, assert, text conversion, bignums, the reader, sorting,
+# attributed variables, univ, the toplevel-style writers): under exact reservations every reserve-then-write
+# site they execute is an exact fit, so these need no particular fill level
+WL_HELPER = r"""
+:- use_module(library(between)).
+:- use_module(library(freeze)).
+:- use_module(library(dif)).
+:- use_module(library(charsio)).
+:- use_module(library(format)).
+:- use_module(library(assoc)).
+:- dynamic(w33/1).
+num33(N, N, [N]) :- !.
+num33(I, N, [I|T]) :- I < N, I1 is I + 1, num33(I1, N, T).
+"""
+WL_GOALS = [
+    "num33(1, 60, L)",
+    "T = f(X, g(Y, X), \"a string\", [1,2,3|Z], h(Y, \"more\")), copy_term(T, C)",
+    "findall(X-Y, (between(1, 12, X), Y is X * X), L)",
+    "(retractall(w33(_)), assertz(w33(f(1,\"s\"))), assertz(w33(g(2))), findall(X, w33(X), L), retractall(w33(_)))",
+    "atom_chars(abcdefghij, C1), append(C1, \"klmnop\", L), atom_chars(A, L), number_chars(N, \"123456789012345678901234567890\")",
+    "X is 7 ^ 80 + 3 ^ 70, Y is X // (2 ^ 64) + 1 rdiv 3",
+    "read_term_from_chars(\"foo(Bar, [1,2,3|Baz], \\\"str\\\", 'q a', 1.5e10, g(Bar)).\", T, [])",
+    "sort([c,a,b,a,d,f(x),\"s\",1.0,1], L), keysort([2-a,1-b,2-c,1-d], K), msort33([3,1,2], D)",
+    "findall(X-L, bagof(Y, member(X-Y,[1-a,2-b,1-c,2-d]), L), Ls), setof(A-B, member(A-B,[2-x,1-y,2-x]), S)",
+    "freeze(X, Y = 1), dif(Z, a), X = 2, Z = b, copy_term(f(P,Q), C, Gs)",
+    "T =.. [foo, 1, \"ab\", X, g(X)], functor(T, F, A), functor(N, bar, 7), N =.. Lx",
+    "length(L, 40), length(M, 3), append(M, L, ML), msort33(ML, ML2)",
+    "atom_chars(A, \"h\\xe9\\llo w\\x20ac\\rld\"), atom_length(A, N), sub_atom(A, 2, 5, _, S), atom_concat(S, A, AA), atom_codes(AA, Codes)",
+    "number_chars(N, \"0x1F\"), number_chars(M, \" 12\"), number_codes(F, [0'3,0'.,0'5]), number_codes(G, [0'7])",
+    "phrase(format_(\"~w ~q ~a ~d ~s ~4f~n~t~w~20|~w\", [f(X), 'a b', abc, 42, \"str\", 1.5, right, g]), Cs), length(Cs, N)",
+    "write_term_to_chars(f('A b', \"str\", [1,2|T], 'x'(Y), - 1, 1 - 2, {a,b}), [quoted(true)], Cs), append(Cs, \" .\", Cs1), read_term_from_chars(Cs1, R, [])",
+    "list_to_assoc([a-1,b-2,c-3], As), put_assoc(d, As, 4, As2), assoc_to_list(As2, L), assoc_to_keys(As2, Ks)",
+    "catch(atom_length(X, _), error(E, Ctx), true), catch(arg(x, f(a), _), error(E2, _), true), catch(throw(f(\"ball\", [1,2,3], 10000000000000000000000)), B, true)",
+    "bb_put(k33, f(\"s\", [1,2], X)), bb_get(k33, V), bb_b_put(k33b, g(\"t\")), bb_get(k33b, W)",
+    "partial_string(\"abcdefghijk\", S, T), T = \"lmn\", atom_chars(A, S), S = [H|Rest], copy_term(Rest, R2)",
+    "phrase(seq33(Xs), \"abc\", Rest), findall(Xs-Rest, phrase(seq33(Xs), \"ab\", Rest), L)",
+    "copy_term(f(X,Y,g(Z,X)), T), term_variables(T, Vs), length(Vs, NV)",
+]
+WL_HELPER += "seq33([]) --> [].\nseq33([X|Xs]) --> [X], seq33(Xs).\nmsort33(L, L).\n:- use_module(library(lists)).\n:- use_module(library(iso_ext)).\n:- use_module(library(dcgs)).\n"
+
+
+def run_workloads():
+    """each workload once with ordinary growth (reference) and once under exact reservations + one-cell
+    growth with the canary allocator: same answer, no canary touched, no abnormal end"""
+    acc = px.ShardAcc()
+    for i, g in enumerate(WL_GOALS):
+        v = recheck_workload(i)
+        acc.case(True, "workload_ok" if v is None else "workload_bad", sample={"goal": g})
+        if v:
+            acc.violation(v["sig"], v["case"], observed=v["observed"])
+    return acc.result()
+
+
+def recheck_workload(i):
+    g = WL_GOALS[i]
+    case = {"kind2": "machine", "wl": i}
+    w = pool.Worker(extra_env={"PW_REDZONE": "1"})
+    try:
+        w.consult(WL_HELPER, persist=True)
+        ref = px.run_goals(w, ["g((%s))" % g])[0]
+        if ref.abn or ref.status != "done":
+            raise pool.MachineryError("C33 workload %d: reference run: %r" % (i, ref))
+        w.rpc({"op": "tight", "on": True, "exact": True})
+        r = px.run_goals(w, ["g((%s))" % g])[0]
+        w.rpc({"op": "tight", "on": False})
+        px.run_goals(w, ["length(L, 5000)"])
+        smashed = w.rpc({"op": "rz"}).get("smashed", 0)
+        if smashed:
+            return {"sig": "machine: write outside an allocated block (canary overwritten) [workload %d]" % i,
+                    "case": case, "observed": "smashed=%d goal=%s" % (smashed, g)}
+        if r.abn or r.status != ref.status or len(r.sols) != len(ref.sols):
+            return {"sig": "machine: workload %d under exact reservations: %s" % (i, r.abn or "answers differ"),
+                    "case": case, "observed": repr(r)[:300]}
+        from vx.model import unify as U
+        for a, b in zip(r.sols, ref.sols):
+            ta = tuple(sorted(a.items(), key=lambda kv: kv[0]))
+            tb = tuple(sorted(b.items(), key=lambda kv: kv[0]))
+            if not U.variant(("s",) + tuple(v for _, v in ta), ("s",) + tuple(v for _, v in tb)):
+                return {"sig": "machine: workload %d under exact reservations: answers differ" % i,
+                        "case": case, "observed": {"got": repr(a)[:300], "want": repr(b)[:300]}}
+        return None
+    finally:
+        w.close()
+
+
 def machine_cases(pad):
     for n in range(0, 26):
         for kind in ("a", "e", "n"):
@@ -98,6 +188,8 @@ def machine_cases(pad):
 
 def run_machine(shard):
     pad = shard[1]
+    if pad == "wl":
+        return run_workloads()
     w = pool.Worker(extra_env={"PW_REDZONE": "1"})
     acc = px.ShardAcc()
     try:
@@ -132,6 +224,8 @@ def run_machine(shard):
 
 
 def recheck_machine(c):
+    if "wl" in c:
+        return recheck_workload(c["wl"])
     goal = None
     for cc, g in machine_cases(c["pad"]):
         if cc["len"] == c["len"] and cc["kind"] == c["kind"] and cc["op"] == c["op"]:
